@@ -10,7 +10,7 @@ Part A (objects): for populated instances of every concrete Copyable class: `c =
 Part B (landmark managers): random histories over managers, landmarkable owners and caller-held shapes on the real
   classes, an independent value-semantics reference (the property oracle) and the Lean state machine.
 Part C (heap histories): a populated object, then 6..14 public operations (copy, array write, attribute rebinding,
-  any public mutator, landmark-group assignment / deletion, the inherited mapping methods update / setdefault / pop /
+  one of a fixed list of public mutators, landmark-group assignment / deletion, the inherited mapping methods update / setdefault / pop /
   popitem / clear, the landmarks setter) through the original, its copies
   and copies of copies; oracle after every step: every object the step was not performed on is unchanged; model:
   the same history on the Lean heap machine `stepH` (copy / assignment predicted, other mutators replayed from
@@ -89,7 +89,10 @@ INFO = dict(
                "fresh content of a kind the table lists) are re-decided by the kernel; every sampled live object "
                "graph, also after every step of every sampled history, is checked to conform to the table "
                "(hypothesis of the theorems); every sampled live heap and its model copy are checked to have "
-               "distinct dict keys (pyDictB: the hypothesis PyDict of srcCopyObj_eq).  An independent oracle checks equality, sharing, write-through and "
+               "distinct dict keys (pyDictB: the hypothesis PyDict of srcCopyObj_eq).  "
+               "An independent oracle checks equality (of the state the property names; private memo attributes and "
+               "the mutual consistency of the manager's views are correspondence observations only), sharing, "
+               "write-through and "
                "public mutators on the real objects, per step of every history that what was done through one "
                "object is invisible in all others, and a value-semantics reference decides manager histories.",
     level_note="Trusted: Lean kernel; axioms propext/Classical.choice/Quot.sound; harness/py2lean2.py + "
@@ -107,7 +110,8 @@ INFO = dict(
          "Part B: one case = one history (8..40 ops over 5 names incl. unicode, empty string and None, all shape "
          "classes); distinct = distinct op sequence; non-trivial = at least one successful set followed by a "
          "mutation or copy.  Part C: one case = one heap history (6..14 public operations - copy, array write, "
-         "attribute rebinding, any public mutator, group assignment / deletion incl. the inherited mapping methods, "
+         "attribute rebinding, one of the FIXED LIST of public mutators (harness/c06.py: mutators), group assignment "
+         "/ deletion incl. the inherited mapping methods, "
          "landmarks setter - through up to 5 "
          "objects: the original, copies, copies of copies); distinct = distinct (class, operation sequence); "
          "non-trivial = a copy followed by a state-changing operation",
@@ -115,7 +119,13 @@ INFO = dict(
              "update / setdefault / pop / popitem / clear), the landmarks setter and the first access of .landmarks "
              "(the lazily created manager) are predicted by the model, and the model definitions that predict them "
              "are proved equal to the bodies translated from the source (GenProps/C06Src.lean); "
-             "for every other public mutator (array kernels: _from_vector_inplace, set_h_matrix, set_target, "
+             "'public mutator' means a FIXED, hand-written list, not every public method: Landmarkable: landmarks[k] = shape, landmarks[k].points += c, landmarks._transform_inplace, del landmarks[k], landmarks = manager; PointCloud: _from_vector_inplace, _transform_inplace, Translation._apply_inplace; Image: _from_vector_inplace (copy=True and copy=False); MaskedImage: set_masked_pixels (copy=True and copy=False), mask.pixels[...] = v; LandmarkManager: lm[k] = shape, lm[k].points += c, _transform_inplace, del lm[k]; Homogeneous family: _from_vector_inplace, compose_before_inplace, compose_after_inplace, compose_after_from_vector_inplace, set_rotation_matrix (where defined); Alignment: set_target; ThinPlateSplines / PWA: apply (memo); TransformChain: compose_before_inplace, compose_after_inplace; LinearVectorModel: orthonormalize_inplace, orthonormalize_against_inplace, components *= c, components = a; PCAVectorModel / PCAModel: trim_components, n_active_components = k, increment, template_instance.landmarks[k] = shape.  "
+             "set_h_matrix is not in it (Homogeneous.h_matrix_is_mutable is False for every class: the call always "
+             "raises), set_boundary_pixels neither (it returns a new image); members of a TransformChain are shared by "
+             "documented design and not edited.  Per (class, mutator) the run records how often the call ran / raised "
+             "(evidence: generated_tables.mutator_runs); a listed mutator that never runs for a class is reported as a "
+             "broken tie.  "
+             "For every other listed mutator (array kernels: _from_vector_inplace, _set_h_matrix, set_target, "
              "increment, orthonormalize_inplace ...) the model executes the update of the "
              "object graph that the real call was observed to make (writes into owned arrays, rebinding of "
              "attributes / items to freshly built object graphs, deletions), checks that it is confined to cells "
@@ -137,12 +147,38 @@ INFO = dict(
              "same liberty: the object a copy method / __init__ builds is a pending value (Src.PObj) that becomes "
              "a cell when it is returned, and `new.x[k] = v.copy()` re-initialises the pending dict instead of "
              "writing the shallow copy on the heap",
+             "one dimensionality is enforced AT ASSIGNMENT (set / landmarks setter): the machine's edits through a "
+             "stored group (ME / MG / X) are value edits that keep n_dims, so one_dimensionality is universal over "
+             "that vocabulary only - the code does not stop lm['a'].points = <array of another width> or a "
+             "_transform_inplace with a dimension-changing callable, and the property text does not ask it to",
+             "replacing the ONLY group by a shape of another dimensionality: the code (and therefore the model's "
+             "setItem) refuses it; the property text also allows the replacement (one dimensionality still holds), "
+             "so the oracle accepts both outcomes and a replacement shows up as a model/implementation difference",
+             "vocabulary liberties of the translation (trusted, lean/MenpoModel/Core/C06Src.lean + "
+             "harness/trans_c06.py): Src.newOf drops its class argument - the class of the copy comes from "
+             "Src.finish C in srcCopyObj, i.e. 'the copy has the class of the original' holds by vocabulary for the "
+             "translated bodies (the only class expression with a rule is self.__class__ / type(self)); "
+             "Src.attrIsNone is true for any immutable attribute value; super(LandmarkManager, self).__init__() is "
+             "a skip rule (a state-bearing __init__ added to a base class would not be seen); on the manager world "
+             "Copyable.copy(manager) is one word (Src.shallowCopyMgr) and value.copy() of a shape is 'allocate an "
+             "equal value' (Src.copyArg / Src.copyShape); TypeError in an except clause adds no arm (the heap "
+             "model has no such failure); iterating self._landmark_groups instead of new._landmark_groups in "
+             "LandmarkManager.copy has no rule (needs a semantic lemma about the shallow dict copy): such a rewrite "
+             "ends in `no-failing-input-found`",
              "the translated bodies equal the model under the well-formedness the Python data model guarantees: "
              "dict keys / attribute names distinct (PyDict, an invariant of copy: copy_preserves_pyDict; for the "
              "manager: WInv.keys), references inside the heap (Closed), `self` exists; the four ValueError refusals "
              "of the manager are one exception class for the translated code (Src.toPy)"],
     assumptions=["object graphs are acyclic (a cyclic graph makes Copyable.copy recurse forever; the model returns "
                  "`fuel`)", "callables held by LazyList are opaque immutable values",
+                 "functions, functools.partial objects, bound methods, dtypes, slices, ranges and class objects "
+                 "WITHOUT a `copy` attribute held in any attribute are immutable values for the attribute-kind table "
+                 "(what a partial / bound method refers to is not followed); `.copy()` of an immutable is "
+                 "AttributeError in the model - a class object with an unbound `copy` (self.kind = dict), on which "
+                 "the real Copyable.copy raises TypeError, is encoded as kind `other` so that copyWF fails loudly",
+                 "memo attributes (private attributes other than the named state: harness/c06.py NAMED_PRIVATE) are "
+                 "not observable state: a copy that differs from the original only there is reported as a "
+                 "model/implementation difference, not as a violation",
                  "error correspondence is by exception *type*: the four ValueError refusals of the manager are one "
                  "class for the implementation diff (the model distinguishes them)",
                  "fnmatch (glob matching of group names) is library code: its verdict per name is an input of "
@@ -193,7 +229,7 @@ THEOREMS = [
     "MenpoModel.C06.LM.observers_refine",
 ]
 TARGETS = ["MenpoModel.Props.C06", "MenpoModel.Drive.C06"]
-# the theorems of GenProps/C06Src.lean (about the bodies TRANSLATED from the source text): the 18 equality obligations
+# the theorems of GenProps/C06Src.lean (about the bodies TRANSLATED from the source text): the 22 equality obligations
 # and the property theorems restated for the translated methods.  They are axiom-audited on every run on which the
 # obligations hold (when the source no longer translates to the model they are reported as a broken obligation instead).
 from .trans_c06 import SRC_THEOREMS, OBL_MODULE as SRC_OBL_MODULE  # noqa: E402
@@ -317,8 +353,20 @@ def heap_tokens(enc, root):
     return toks
 
 
-def digest(o, own=False):
-    """canonical observable state.  own=True: by-design shared parts only by identity."""
+# private attributes that hold state the property names (coordinates, pixels, mask, connectivity, labels, landmark
+# groups, transform matrices and the point sets an alignment was fitted to, model components, lazy-list members);
+# every OTHER private attribute is a memo / cache (`_iab`, `_applied_points`, ...): not observable state
+NAMED_PRIVATE = {"_landmarks", "_landmark_groups", "_labels_to_masks", "_h_matrix", "_source", "_target", "_directed",
+                 "_components", "_mean", "_eigenvalues", "_trimmed_eigenvalues", "_n_active_components", "_callables"}
+
+
+def _is_cache_attr(name):
+    return name.startswith("_") and name not in NAMED_PRIVATE
+
+
+def digest(o, own=False, skip=None):
+    """canonical observable state.  own=True: by-design shared parts only by identity.  skip: predicate on attribute
+    names that are left out (memo attributes)."""
     import scipy.sparse as sp
     from menpo.base import Copyable
     seen = {}
@@ -339,7 +387,8 @@ def digest(o, own=False):
             return (type(v).__name__, tuple(d(x, "X" if lim == "S" else "F") for x in v))
         if isinstance(v, Copyable):
             return (X.qual(type(v)), tuple(sorted(
-                (k, d(x, ("X" if lim == "S" else _by_design(v, k)) if own else "F")) for k, x in v.__dict__.items())))
+                (k, d(x, ("X" if lim == "S" else _by_design(v, k)) if own else "F")) for k, x in v.__dict__.items()
+                if skip is None or not skip(k))))
         if isinstance(v, (set, frozenset)):
             return ("set", tuple(sorted(repr(x) for x in v)))
         if isinstance(v, X.IMM_TYPES):
@@ -412,10 +461,11 @@ def mutators(o, rng):
         ms.append(("apply_inplace", lambda: T.Translation(np.ones(o.n_dims))._apply_inplace(o)))
     if isinstance(o, Image) and not isinstance(o, BooleanImage):
         ms.append(("from_vector_inplace", lambda: o._from_vector_inplace(o.as_vector() + 0.25)))
+        ms.append(("from_vector_inplace.nocopy", lambda: o._from_vector_inplace(o.as_vector() + 0.25, copy=False)))
     if isinstance(o, MaskedImage):
         ms.append(("set_masked_pixels", lambda: o.set_masked_pixels(o.masked_pixels() + 0.5)))
         ms.append(("mask.edit", lambda: o.mask.pixels.__setitem__((0,) + (0,) * o.n_dims, False)))
-        ms.append(("set_boundary_pixels", lambda: o.set_boundary_pixels(value=0.75)))
+        ms.append(("set_masked_pixels.nocopy", lambda: o.set_masked_pixels(o.masked_pixels() + 0.5, copy=False)))
     if isinstance(o, LandmarkManager):
         d = o.n_dims or 2
         ms.append(("set", lambda: o.__setitem__("zz", _shape_for(rng, d))))
@@ -428,7 +478,8 @@ def mutators(o, rng):
         ms.append(("from_vector_inplace", lambda: o._from_vector_inplace(o.as_vector() * 0.5 + 0.25)))
         ms.append(("compose_before_inplace", lambda: o.compose_before_inplace(o.copy())))
         ms.append(("compose_after_inplace", lambda: o.compose_after_inplace(o.copy())))
-        ms.append(("set_h_matrix", lambda: o.set_h_matrix(o.h_matrix.copy(), skip_checks=True)))
+        ms.append(("compose_after_from_vector_inplace",
+                   lambda: o.compose_after_from_vector_inplace(o.as_vector() * 0.5 + 0.125)))
         if hasattr(o, "set_rotation_matrix"):
             ms.append(("set_rotation_matrix", lambda: o.set_rotation_matrix(o.rotation_matrix.T.copy())))
     if isinstance(o, Alignment):
@@ -438,10 +489,13 @@ def mutators(o, rng):
     if isinstance(o, T.TransformChain):
         ms.append(("compose_before_inplace", lambda: o.compose_before_inplace(T.Translation([1.0, 1.0]))))
         ms.append(("compose_after_inplace", lambda: o.compose_after_inplace(T.Translation([2.0, 1.0]))))
-        ms.append(("member.edit", lambda: None))  # members are shared by design: not exercised
     if isinstance(o, LinearVectorModel):
         ms.append(("orthonormalize_inplace", lambda: o.orthonormalize_inplace()))
         ms.append(("components.edit", lambda: o.components.__imul__(2.0)))
+        ms.append(("components.set", lambda: setattr(o, "components", o.components * 2.0)))
+        if o.n_features >= o.n_components + 1:
+            ms.append(("orthonormalize_against_inplace", lambda: o.orthonormalize_against_inplace(
+                LinearVectorModel(np.arange(1.0, o.n_features + 1.0)[None, :] / o.n_features))))
     if isinstance(o, PCAVectorModel):
         ms.append(("trim_components", lambda: o.trim_components(max(1, o.n_components - 1))))
         ms.append(("n_active_components", lambda: setattr(o, "n_active_components", 1)))
@@ -488,7 +542,14 @@ def check_object(ctx, label, obj_seed, model_lines=None, cid=None, thorough_poke
     ctx.check(type(c) is type(o), site, "class-changed", "copy is a %s" % type(c).__name__, rp)
     ctx.check(digest(o) == d0, site, "original-changed", "copy() changed the state of the original", rp)
     dc = digest(c)
-    ctx.check(dc == d0, site, "not-equal", "the copy's observable state differs from the original's", rp)
+    if dc != d0:
+        if digest(c, skip=_is_cache_attr) == digest(o, skip=_is_cache_attr):
+            # only memo attributes differ (a copy() that resets a cache): not state the property names - reported as
+            # a difference from the model (which copies every attribute), not as a violation
+            ctx.mismatch("copy.memo", "the copy of a %s differs from the original only in private memo attributes"
+                         % cls, rp)
+        else:
+            ctx.fail(site, "not-equal", "the copy's observable state differs from the original's", rp)
     enc_o, root_o = X.encode(o)
     enc_c, root_c = X.encode(c)
     shared = sharing_map(enc_o, enc_c)
@@ -548,8 +609,8 @@ def check_object(ctx, label, obj_seed, model_lines=None, cid=None, thorough_poke
             continue
         try:
             ms[name]()
-        except Exception:
-            ctx.count("mutator-skipped")
+        except Exception:  # noqa: BLE001
+            ctx.count("mutator-raised:" + name)
             continue
         ctx.count("mutator:" + name)
         if digest(b) != before:
@@ -883,7 +944,7 @@ def run_history(ctx, ops, seed_for_owner=0):
         got, want = None, None
         try:
             if _bad_ref(op, W):
-                got = want = "err:bad-ref"
+                got, want = "err:bad-ref", "refused"    # not a finding: the op names something that does not exist
             elif t == "NM":
                 W.mgrs.append(LandmarkManager()); got = "idx:%d" % (len(W.mgrs) - 1)
                 R.mgrs.append(OrderedDict()); want = got
@@ -915,12 +976,19 @@ def run_history(ctx, ops, seed_for_owner=0):
                 m = R.mgrs[mi]
                 ok = (k is not None and a[0] == "e" and
                       (len(m) == 0 or next(iter(m.values()))[1] == R.exts[a[1]][1]))
+                # replacing the ONLY group by a shape of another dimensionality leaves one dimensionality for all
+                # groups whichever way it is decided: the text allows both the refusal and the replacement
+                either = (not ok and k is not None and a[0] == "e" and list(m.keys()) == [k])
                 want = "ok" if ok else "refused"
                 if ok:
                     m[k] = R.exts[a[1]]
                 try:
                     lm[name] = val
                     got = "ok"
+                    if either:
+                        ctx.count("sole-group-replaced-with-other-dimensionality")
+                        want = "ok"
+                        m[k] = R.exts[a[1]]
                     if a[0] == "e":
                         st = lm[name]
                         ctx.check(st is not val and not np.shares_memory(st.points, val.points), site, "stored-alias",
@@ -952,33 +1020,37 @@ def run_history(ctx, ops, seed_for_owner=0):
             elif t == "K":
                 lm, mi = W.ref(op[1]), R.mref(op[1])
                 ks = [NAMES.index(x) for x in lm]
-                ctx.check(ks == [NAMES.index(x) for x in lm.group_labels] == [NAMES.index(x) for x in lm.keys()]
-                          and len(lm) == lm.n_groups == len(ks), site, "key-views-disagree",
-                          "iteration, group_labels, keys() and len() disagree", rp_i)
+                # consistency of the views among themselves is not in the property text (the order itself is judged by
+                # `outcome` below): a difference is a correspondence observation, not a violation
+                if not (ks == [NAMES.index(x) for x in lm.group_labels] == [NAMES.index(x) for x in lm.keys()]
+                        and len(lm) == lm.n_groups == len(ks)):
+                    ctx.mismatch("manager.key-views", "iteration, group_labels, keys() and len() disagree", rp_i)
                 nd = lm.n_dims
-                ctx.check((nd is None) == (len(ks) == 0), site, "n_dims-none", "n_dims is None iff empty", rp_i)
+                if (nd is None) != (len(ks) == 0):
+                    ctx.mismatch("manager.n_dims-none", "n_dims is None iff empty does not hold", rp_i)
                 got = "keys:" + ",".join(str(x) for x in ks)
                 want = "keys:" + ",".join(str(x) for x in R.mgrs[mi])
             elif t == "IM":
                 lm, mi, glob, sel = W.ref(op[1]), R.mref(op[1]), op[2], op[3]
                 items = list(lm.items_matching(glob))
-                ctx.check([k for k, _ in items] == list(lm.keys_matching(glob)), site, "keys-items-disagree",
-                          "keys_matching and items_matching disagree for %r" % glob, rp_i)
-                ctx.check(all(v is lm[k] for k, v in items), site, "items-not-stored-objects",
-                          "items_matching yields objects other than the stored groups", rp_i)
+                if [k for k, _ in items] != list(lm.keys_matching(glob)):
+                    ctx.mismatch("manager.keys-items", "keys_matching and items_matching disagree for %r" % glob, rp_i)
+                if not all(v is lm[k] for k, v in items):     # identity of the yielded objects: not in the text
+                    ctx.mismatch("manager.items-identity", "items_matching yields objects other than the stored "
+                                 "groups", rp_i)
                 got = "items:" + ";".join("%d=%s" % (NAMES.index(k), fmt_shape(obs_shape(v))) for k, v in items)
                 want = "items:" + ";".join("%d=%s" % (k, fmt_shape(v)) for k, v in R.mgrs[mi].items() if k in sel)
             elif t == "N":
                 lm, mi = W.ref(op[1]), R.mref(op[1])
                 m = R.mgrs[mi]
                 nd = lm.n_dims
-                ctx.check(lm.n_groups == len(lm) == len(list(lm)), site, "counts-disagree",
-                          "n_groups, len() and iteration disagree", rp_i)
+                if not (lm.n_groups == len(lm) == len(list(lm))):
+                    ctx.mismatch("manager.counts", "n_groups, len() and iteration disagree", rp_i)
                 if op[1][0] == "o":
                     ow = W.owners[op[1][1]]
-                    ctx.check(ow.has_landmarks == lm.has_landmarks and ow.n_landmark_groups == lm.n_groups, site,
-                              "owner-counts-disagree", "owner.has_landmarks / n_landmark_groups disagree with "
-                              "the manager", rp_i)
+                    if not (ow.has_landmarks == lm.has_landmarks and ow.n_landmark_groups == lm.n_groups):
+                        ctx.mismatch("manager.owner-counts", "owner.has_landmarks / n_landmark_groups disagree with "
+                                     "the manager", rp_i)
                 got = "count:%d:%d:%s" % (lm.n_groups, 1 if lm.has_landmarks else 0, "-" if nd is None else nd)
                 want = "count:%d:%d:%s" % (len(m), 1 if m else 0, next(iter(m.values()))[1] if m else "-")
             elif t == "C":
@@ -1283,10 +1355,16 @@ SHARING_MUTATORS = [("menpo.transform.base.composable.TransformChain", "compose_
                     ("menpo.transform.base.composable.TransformChain", "compose_after_inplace")]
 
 
+# (class, mutator) -> [ran, raised] over the instances of the last effect_table(): a listed mutator that never runs
+# for a class has an empty effect row (for which mutEffects_ok says nothing), so that is reported as a broken tie
+MUTATOR_RUNS = {}
+
+
 def effect_table(per_class=3):
     """{(class, mutator): set of effects} observed on fresh populated instances of every class: which cells of
     the receiver's own object graph a public mutator updates and what it stores there"""
     rows = {}
+    MUTATOR_RUNS.clear()
     for li, label in enumerate(X.LABELS):
         for t in range(per_class):
             seed = 7919 * (li + 1) + t
@@ -1299,10 +1377,12 @@ def effect_table(per_class=3):
                 E0, rv0 = encode_many([o])
                 sig0 = snapshot(E0)
                 own0 = owned_paths(E0, rv0[0])
+                run = MUTATOR_RUNS.setdefault((X.qual(type(o)), name), [0, 0])
                 try:
                     ms[name]()
-                except Exception:
-                    pass
+                    run[0] += 1
+                except Exception:  # noqa: BLE001  (e.g. 3-D rotations have no vector form); counted, see below
+                    run[1] += 1
                 E1, _ = encode_many([o])
                 effs, why = diff_effects(E0, sig0, own0, E1)
                 row = rows.setdefault((X.qual(type(o)), name), set())
@@ -1585,9 +1665,13 @@ def run_heap_history(ctx, label, obj_seed, hist_seed, n_ops):
                 ctx.fail(site, "visible-in-other-object",
                          "step %d (%s) changed the state of r%d (%s), which it was not performed on; history: %s"
                          % (k, desc, j, type(roots[j]).__name__, "; ".join(log)), rp_k)
-        if kind == "copy":
-            ctx.check(digest(roots[-1]) == full_before[i], site, "not-equal",
-                      "step %d: the copy of r%d differs from it; history: %s" % (k, i, "; ".join(log)), rp_k)
+        if kind == "copy" and digest(roots[-1]) != full_before[i]:
+            if digest(roots[-1], skip=_is_cache_attr) == digest(roots[i], skip=_is_cache_attr):
+                ctx.mismatch("history.copy.memo", "step %d: the copy of r%d differs from it only in private memo "
+                             "attributes" % (k, i), rp_k)
+            else:
+                ctx.fail(site, "not-equal",
+                         "step %d: the copy of r%d differs from it; history: %s" % (k, i, "; ".join(log)), rp_k)
         E1, rv1 = encode_many(roots)
         own1 = [owned_paths(E1, v) for v in rv1]
         if kind in ("copy", "mgr-set", "lm-assign", "mutator", "mgr-mixin"):
@@ -1709,6 +1793,16 @@ def generated(ctx):
         all_ok, _out = common.lake_build([X.GEN_MODULE, EFF_MODULE, X.OBL_MODULE] + TR.GEN_TARGETS)
     if files is not None:
         notes["mutator_effects"] = eff_notes
+        never = sorted("%s.%s" % k for k, (ran, _r) in MUTATOR_RUNS.items() if ran == 0)
+        notes["mutator_runs"] = {"pairs_class_mutator": len(MUTATOR_RUNS),
+                                 "raised_on_some_instance": sorted(
+                                     "%s.%s (%d of %d)" % (k[0].rsplit(".", 1)[-1], k[1], r, a + r)
+                                     for k, (a, r) in MUTATOR_RUNS.items() if r and a),
+                                 "never_ran": never}
+        if never:
+            ctx.mismatch("mutator-never-ran", "listed public mutators raise on every populated instance of their "
+                         "class (their effect rows are empty, mutEffects_ok says nothing about them): %s"
+                         % ", ".join(never), {"part": "mutator-table", "never_ran": never})
         ctx.notes["generated_tables"] = notes
         if all_ok:
             ctx.gen_obligations += 3
@@ -1861,7 +1955,13 @@ def search(ctx):
 def run(ctx):
     _install_cap(ctx)
     _prepare(ctx)
-    ctx.trusted += ["harness/extract_c06.py: encoding of live object graphs as heaps and extraction of the "
+    ctx.trusted += ["C06 translation, what it sees: on the heap (the five copy methods, LandmarkManager.__init__, the "
+                    ".landmarks getter) every .copy() / list() / constructor call is an allocation on the modelled heap "
+                    "and a dropped copy does not prove equal to copyCall; on the manager world value.copy() is "
+                    "'allocate an equal value' and a stored un-copied argument is a Lean type error (LM.Arg vs address); "
+                    "not seen: what a shape's own copy() does (partial), the array kernels of the other mutators "
+                    "(decided by the oracle's digests and the measured effect table)",
+                    "harness/extract_c06.py: encoding of live object graphs as heaps and extraction of the "
                     "attribute-kind / copy-resolution tables",
                     "numpy/scipy `.copy()` of an array / sparse matrix returns fresh buffers (contract; checked on "
                     "every case by np.shares_memory)"]
